@@ -41,6 +41,10 @@ FLAG_INCLUDE_DISALLOWED == 1
 Bit(word, b) == (word \div b) % 2 = 1            \* b is a power of two
 RSet(r) == UNION {r[k][1]..r[k][2] : k \in DOMAIN r}
 RFinite(r) == \A k \in DOMAIN r : r[k][2] >= r[k][1]      \* no -1 end: the set is finite
+\* inclusion of range lists (exact because logged ranges are maximal); works for infinite sets, which complete sets may be
+RSubset(a, b) == \A k \in DOMAIN a : \E j \in DOMAIN b :
+                    b[j][1] <= a[k][1] /\ (b[j][2] = -1 \/ (a[k][2] # -1 /\ a[k][2] <= b[j][2]))
+ROnly(r, x) == r = <<<<x, x>>>>                           \* the set is exactly {x}
 SeqSet(s) == {s[k] : k \in DOMAIN s}
 NoDup(s)  == Cardinality(SeqSet(s)) = Len(s)
 At(s, k)  == IF k >= 1 /\ k <= Len(s) THEN s[k] ELSE 0
@@ -174,7 +178,7 @@ TypeDepthInverse(t) ==
 
 SetsPresence(t) ==
   \A i \in Pos(t) : LET o == O(t, i) IN
-    /\ o.type \in HasSetsTypes => HasSets(o) /\ RFinite(o.cs) /\ RFinite(o.ccs) /\ RFinite(o.ns) /\ RFinite(o.cns)
+    /\ o.type \in HasSetsTypes => HasSets(o) /\ RFinite(o.cs) /\ RFinite(o.ns)
     /\ o.type \notin HasSetsTypes => o.hs = <<0, 0, 0, 0>>
 
 CpusetDisjointUnion(t) ==
@@ -185,7 +189,7 @@ CpusetDisjointUnion(t) ==
 
 PUSingleton(t) ==
   \A i \in Pos(t) : LET o == O(t, i) IN
-    o.type = PU => o.os >= 0 /\ CS(o) = {o.os} /\ CCS(o) = {o.os}
+    o.type = PU => o.os >= 0 /\ CS(o) = {o.os} /\ ROnly(o.ccs, o.os)
 
 MemChildrenShareCpuset(t) ==
   \A i \in Pos(t) : LET o == O(t, i) IN
@@ -200,7 +204,7 @@ BaseNodes(t, i) ==
 
 NodesetDecomposition(t) ==
   \A i \in Pos(t) : LET o == O(t, i) IN
-    /\ o.type = NUMANODE => o.os >= 0 /\ NS(o) = {o.os} /\ CNS(o) = {o.os}
+    /\ o.type = NUMANODE => o.os >= 0 /\ NS(o) = {o.os} /\ ROnly(o.cns, o.os)
     /\ o.type = MEMCACHE =>
          /\ NS(o) = UNION {NS(O(t, o.mem[k])) : k \in DOMAIN o.mem}
          /\ \A a, b \in DOMAIN o.mem : a < b => NS(O(t, o.mem[a])) \cap NS(O(t, o.mem[b])) = {}
@@ -218,17 +222,17 @@ NodesetDecomposition(t) ==
 SetInclusions(t) ==
   \A i \in Pos(t) : LET o == O(t, i) IN
     HasSets(o) =>
-      /\ CS(o) \subseteq CCS(o) /\ NS(o) \subseteq CNS(o)
+      /\ RSubset(o.cs, o.ccs) /\ RSubset(o.ns, o.cns)
       /\ (o.parent # 0 /\ HasSets(O(t, o.parent))) =>
            LET p == O(t, o.parent) IN
-           /\ CS(o) \subseteq CS(p) /\ CCS(o) \subseteq CCS(p)
-           /\ NS(o) \subseteq NS(p) /\ CNS(o) \subseteq CNS(p)
+           /\ RSubset(o.cs, p.cs) /\ RSubset(o.ccs, p.ccs)
+           /\ RSubset(o.ns, p.ns) /\ RSubset(o.cns, p.cns)
 
 AllowedSets(t) ==
   LET root == O(t, 1) IN
   /\ RFinite(t.tacs) /\ RFinite(t.tans)
-  /\ RSet(t.tcs) = CS(root) /\ RSet(t.tccs) = CCS(root)        \* topology-level getters are the root sets
-  /\ RSet(t.tns) = NS(root) /\ RSet(t.tcns) = CNS(root)
+  /\ t.tcs = root.cs /\ t.tccs = root.ccs                      \* topology-level getters are the root sets
+  /\ t.tns = root.ns /\ t.tcns = root.cns
   /\ RSet(t.tacs) \subseteq CS(root) /\ RSet(t.tans) \subseteq NS(root)
   /\ ~Bit(t.flags, FLAG_INCLUDE_DISALLOWED) => RSet(t.tacs) = CS(root) /\ RSet(t.tans) = NS(root)
 
